@@ -5,6 +5,7 @@ import sys, os, json, re, shutil, string
 ID, k, slug, needs, result = sys.argv[1:6]
 wave = int(sys.argv[6]) if len(sys.argv) > 6 else 12
 M = '/tmp/mut/%s/_mutants' % ID
+ID = os.environ.get('PROP', ID)  # worktree name and property id may differ (wave 13: /tmp/mut/D07 holds changes for C07)
 used = {d.split('-')[1] for d in os.listdir('/verif/seeded') if d.startswith(ID + '-')}
 letter = next(c for c in string.ascii_lowercase if c not in used)
 D = '/verif/seeded/%s-%s-%s' % (ID, letter, slug)
